@@ -3,11 +3,11 @@
 # run the given checks (default: Cxx) against each through an overlay, record results in meta.json.
 p=$1; shift; checks=${@:-$p}
 cd /verif
-R=${ROUND:-}
+RND=${ROUND:-}
 for x in A B; do
-  src=/tmp/mut$R-$p/out/$x; [ -f $src/patch.diff ] || continue
-  y=$x; if [ "$R" = 2 ]; then if [ $x = A ]; then y=C; else y=D; fi; fi
-  d=seeded/$p-$y; mkdir -p $d; cp $src/* $d/ 2>/dev/null
+  src=/tmp/mut$RND-$p/out/$x; [ -f $src/patch.diff ] || continue
+  y=$x; if [ "$RND" = 2 ]; then if [ $x = A ]; then y=C; else y=D; fi; fi
+  d=seeded/$p-$y; if [ -n "${SKIPDONE:-}" ] && grep -q checks_run $d/meta.json 2>/dev/null; then continue; fi; mkdir -p $d; cp $src/* $d/ 2>/dev/null
   conf=$(tools/confirm_seeded.sh $d 2>&1 | tail -12)
   python3 tools/patch2overlay.py $d/patch.diff work/ov-$p-$y >/dev/null || { echo "$p-$x overlay failed"; continue; }
   declare -A R=()
@@ -36,4 +36,4 @@ PY
   echo "$conf" | grep RESULT
   rm -rf work/ov-$p-$y
 done
-git -C /repo worktree remove --force /tmp/mut$R-$p/wt 2>/dev/null; rm -rf /tmp/mut$R-$p
+git -C /repo worktree remove --force /tmp/mut$RND-$p/wt 2>/dev/null; rm -rf /tmp/mut$RND-$p
